@@ -21,6 +21,8 @@ import shutil
 import subprocess
 import tempfile
 
+from hypothesis import strategies as st
+
 from .. import core, corpus, lex, iface, shroud_run, smallgen
 from ..exec import xlib, upstream
 
@@ -503,11 +505,34 @@ def run(ctx):
         for key, note in out["problems"]:
             ctx.failure(key, out["case"], expected="interoperable interface / identical layout", observed=note, note=note)
     ctx.extra["programs"] = programs
+    # shared constant tables, enumerations: the enumerators of the generated C header and the parameters of the
+    # generated module, each evaluated by its own compiler, must agree name by name (generator of C11)
+    from . import c11
+
+    @st.composite
+    def batch(draw):
+        return [draw(c11.enum(i)) for i in range(20)]
+    for out in core.pool_map(c11._job, [(i, "EnumLib", b) for i, b in
+                                        enumerate(smallgen.sample(batch(), ctx.seed + 77, 6 if quick else 60))]):
+        for text, cname, cval, fname, fval, e in out.get("tables", []):
+            ctx.case(label="enum-constant")
+            if cval != fval and "error" not in (cval, fval):
+                note = "%s: %s = %s in the generated C header but %s = %s in the generated Fortran module" % (text, cname, cval, fname, fval)
+                ctx.failure("enum-table:c-vs-fortran", dict(enum_table=dict(lib="EnumLib", enums=[e])),
+                            expected="same value on both sides", observed=note, note=note)
     ctx.extra["disagreements_checked"] = len(ctx.violations)
 
 
 def replay(ctx, rec):
     c = rec["case"]
+    if "enum_table" in c:
+        from . import c11
+        out = c11._job((0, c["enum_table"]["lib"], c["enum_table"]["enums"]))
+        for text, cname, cval, fname, fval, e in out.get("tables", []):
+            if cval != fval and "error" not in (cval, fval):
+                note = "%s: %s = %s in the generated C header but %s = %s in the generated Fortran module" % (text, cname, cval, fname, fval)
+                ctx.failure("enum-table:c-vs-fortran", c, observed=note, note=note)
+        return
     out = _corpus_job(c["corpus"]) if "corpus" in c else _gen_job((0, c["lib"], c["options"]))
     for key, note in out["problems"]:
         ctx.failure(key, c, observed=note, note=note)
